@@ -154,13 +154,13 @@ def handle (st : St) (toks : List String) : St × String :=
       | _ =>
         match dynOp? toks with
         | some op =>
-          let (s', o) := Container.step (paramsOf []) cfg s op
+          let (s', o) := Container.stepT (paramsOf []) cfg s op
           (.dyn cfg s', showOut o)
         | none => (st, "bad-op")
     | .inst cfg s =>
       match instOp? toks with
       | some op =>
-        let (s', o) := Container.istep (paramsOf []) cfg s op
+        let (s', o) := Container.istepT (paramsOf []) cfg s op
         (.inst cfg s', showIOut o)
       | none => (st, "bad-op")
     | .lim cfg =>
